@@ -16,8 +16,44 @@ fn tick() {
     SCANNED.store(SCANNED.load(Relaxed) + 1, Relaxed);
 }
 
+/// Address at which the previous scan started, how often in a row scans
+/// started at one and the same address, and how often a scan started before
+/// the previous one.
+pub static LAST_START: core::sync::atomic::AtomicUsize = core::sync::atomic::AtomicUsize::new(0);
+pub static SAME_START_RUN: core::sync::atomic::AtomicUsize = core::sync::atomic::AtomicUsize::new(0);
+pub static MAX_SAME_START_RUN: core::sync::atomic::AtomicUsize = core::sync::atomic::AtomicUsize::new(0);
+pub static START_DECREASES: core::sync::atomic::AtomicUsize = core::sync::atomic::AtomicUsize::new(0);
+
+#[inline(always)]
+fn note_scan(hay: &[u8]) {
+    use core::sync::atomic::Ordering::Relaxed;
+    let p = hay.as_ptr() as usize;
+    let last = LAST_START.load(Relaxed);
+    if last != 0 && p < last {
+        START_DECREASES.store(START_DECREASES.load(Relaxed) + 1, Relaxed);
+    }
+    let run = if last == p { SAME_START_RUN.load(Relaxed) + 1 } else { 1 };
+    SAME_START_RUN.store(run, Relaxed);
+    if run > MAX_SAME_START_RUN.load(Relaxed) {
+        MAX_SAME_START_RUN.store(run, Relaxed);
+    }
+    LAST_START.store(p, Relaxed);
+}
+
 pub fn model_scanned_reset() {
-    SCANNED.store(0, core::sync::atomic::Ordering::Relaxed);
+    use core::sync::atomic::Ordering::Relaxed;
+    SCANNED.store(0, Relaxed);
+    LAST_START.store(0, Relaxed);
+    SAME_START_RUN.store(0, Relaxed);
+    MAX_SAME_START_RUN.store(0, Relaxed);
+    START_DECREASES.store(0, Relaxed);
+}
+
+/// (longest run of scans starting at the same address, scans that started
+/// before their predecessor)
+pub fn model_scan_order() -> (usize, usize) {
+    use core::sync::atomic::Ordering::Relaxed;
+    (MAX_SAME_START_RUN.load(Relaxed), START_DECREASES.load(Relaxed))
 }
 
 pub fn model_scanned() -> usize {
@@ -25,6 +61,7 @@ pub fn model_scanned() -> usize {
 }
 
 pub fn memchr(n1: u8, hay: &[u8]) -> Option<usize> {
+    note_scan(hay);
     let mut i = 0;
     while i < hay.len() {
         tick();
@@ -37,6 +74,7 @@ pub fn memchr(n1: u8, hay: &[u8]) -> Option<usize> {
 }
 
 pub fn memchr2(n1: u8, n2: u8, hay: &[u8]) -> Option<usize> {
+    note_scan(hay);
     let mut i = 0;
     while i < hay.len() {
         tick();
@@ -49,6 +87,7 @@ pub fn memchr2(n1: u8, n2: u8, hay: &[u8]) -> Option<usize> {
 }
 
 pub fn memchr3(n1: u8, n2: u8, n3: u8, hay: &[u8]) -> Option<usize> {
+    note_scan(hay);
     let mut i = 0;
     while i < hay.len() {
         tick();
